@@ -835,6 +835,10 @@ func ruleORD6(p *Program) *RuleResult {
 // calendar fields are compared).
 func ruleORD8(p *Program) *RuleResult {
 	r := newResult("ORD8")
+	gc, err := p.Method("fhirpath/system", "DateTime", "getComponents")
+	if err != nil {
+		return r.anchorFail(err)
+	}
 	for _, m := range []string{"TryEqual", "Less"} {
 		fn, err := p.Method("fhirpath/system", "DateTime", m)
 		if err != nil {
@@ -844,7 +848,7 @@ func ruleORD8(p *Program) *RuleResult {
 		for _, b := range fn.Blocks {
 			for _, ins := range b.Instrs {
 				c, ok := ins.(*ssa.Call)
-				if !ok || c.Common().StaticCallee() == nil || c.Common().StaticCallee().Name() != "getComponents" {
+				if !ok || c.Common().StaticCallee() != gc {
 					continue
 				}
 				n++
